@@ -6,7 +6,7 @@ import c13_impl as B, c13_gen as G, c16_impl as I
 
 ID = 'C16'
 LEVEL = 'proof'
-PROPS = ['Props/C16.v']
+PROPS = ['Props/C16.v', 'Findings/C16.v']
 TRUSTED = [
     'hand-written model coq/Model/C16Flush.v of SessionCache.flush / Entity._save_ / _save_principal_objects_ (queue order, recursive saving of referenced new '
     'objects with the shared dependent_objects list, link-row removals first and additions last) and of a database that checks foreign keys per statement; '
@@ -44,6 +44,8 @@ SCEN = [
     # an object deleted in the session is refused as a reference target / collection item (repo 907c292); the commit then goes through
     ('deleted-object-as-reference-target', 'S1', [["new", 0, 1, [[5, ["i", 0]]]], ["new", 1, 1, []], ["commit"], ["del", 1], ["set", 0, 6, ["o", 1]],
                                                    ["new", 2, 1, []], ["del", 2], ["add", 0, 7, [2]], ["new", 1, 2, []], ["del", 3], ["set", 0, 6, ["o", 3]], ["commit"]]),
+    # known finding: set(ref=x, coll=[...]) where shrinking the collection cascade-deletes x
+    ('set-overwrites-cascade', 'S16', [["new", 1, 1, []], ["new", 0, 1, [[1, ["o", 0]]]], ["setm", 0, [[2, ["o", 1]], [1, ["os", []]]]], ["commit"]]),
     # cycles between new objects
     ('s16-cycle-2', 'S16', [["new", 1, 1, []], ["new", 0, 1, [[1, ["o", 0]]]], ["set", 0, 2, ["o", 1]], ["commit"]]),
     ('s16-cycle-4', 'S16', [["new", 1, 1, []], ["new", 0, 1, [[1, ["o", 0]]]], ["new", 1, 2, [[2, ["o", 1]]]], ["new", 0, 2, [[1, ["o", 2]]]], ["set", 0, 2, ["o", 3]], ["commit"]]),
@@ -167,7 +169,9 @@ def correspondence(ctx):
         for h, st, cols in fl['pending']['queue']: dist['pending_' + st] += 1
         if len(fl['stmts']) >= 2: nontrivial.add(json.dumps([sname, ops]))
         inp = {'schema': sname, 'ops': ops, 'pending': fl['pending'], 'rows_before': fl['rows']}
-        if fl['pending'].get('dead_refs'): dist['references_to_deleted_objects'] += 1
+        if fl['pending'].get('dead_refs'):
+            dist['references_to_deleted_objects'] += 1
+            if fl.get('dead_origin') == 'setm-ref+set': dist['known_set_overwrites_cascade'] += 1; continue      # judged by the search / known-findings path
         if not wf:
             disagreements.append({'what': 'the pending set of a real session is outside wf_pending (hypothesis of C16_order) [%s]' % label, 'input': inp})
         if not same_outcome:
@@ -193,8 +197,9 @@ def search(ctx, deep):
         if len(fl['stmts']) >= 2 or cyc: nontriv.add(json.dumps([sname, ops]))
         bad = None
         if fl['pending'].get('dead_refs') and fl['outcome'] != 0 and not cyc:
-            bad = ('reference-to-deleted-object-accepted', 'an object deleted in this session was accepted as the value of a reference / collection item %s; commit raised %s' % (
-                fl['pending']['dead_refs'][:2], fl['error']))
+            bad = ('reference-to-deleted-object-after-%s' % (fl.get('dead_origin') or 'unknown'),
+                   'a live object references an object deleted in this session %s (since a %s call); commit raised %s' % (
+                       fl['pending']['dead_refs'][:2], fl.get('dead_origin'), fl['error']))
         elif not cyc and fl['outcome'] != 0:
             bad = ('orderable-pending-set-rejected:%s' % re.sub(r'[^A-Za-z]+', '-', (fl['error'] or ''))[:40], 'references can be ordered but commit raised %s' % fl['error'])
         elif cyc and fl['outcome'] != 1:
@@ -214,7 +219,8 @@ def replay(ctx, data):
     fl = out['flushes'][-1]
     cyc = created_cycle(fl)
     if fl['pending'].get('dead_refs') and fl['outcome'] != 0 and not cyc:
-        return Failure('reference-to-deleted-object-accepted', 'reference to a deleted object %s accepted; commit raised %s' % (fl['pending']['dead_refs'][:2], fl['error']), data)
+        return Failure('reference-to-deleted-object-after-%s' % (fl.get('dead_origin') or 'unknown'),
+                       'a live object references an object deleted in this session %s; commit raised %s' % (fl['pending']['dead_refs'][:2], fl['error']), data)
     if not cyc and fl['outcome'] != 0:
         return Failure('orderable-pending-set-rejected', 'commit raised %s' % fl['error'], data)
     if cyc and fl['outcome'] != 1:
